@@ -87,7 +87,14 @@ func genNastyText(t *rapid.T, label string, max int) model.B {
 	var sb strings.Builder
 	n := rapid.IntRange(0, 4).Draw(t, label+"_parts")
 	for i := 0; i < n; i++ {
-		switch rapid.IntRange(0, 2).Draw(t, label+"_part") {
+		kind := rapid.IntRange(0, 30).Draw(t, label+"_part")
+		if kind < 30 {
+			kind %= 3
+		}
+		switch kind {
+		case 30:
+			// not US-ASCII at all: such a request cannot be decoded and is answered ERROR
+			sb.WriteString(rapid.SampledFrom([]string{"\xe9", "caf\xc3\xa9", "\xff", "\x80"}).Draw(t, label+"_high"))
 		case 0:
 			sb.WriteString(rapid.SampledFrom(nasty).Draw(t, label+"_nasty"))
 		case 1:
@@ -304,6 +311,13 @@ func runC12(t failer, c c12Case) {
 		// judged on the bytes actually sent (a cut that is as long as the body leaves it whole)
 		sent, decOK, exact := model.DecodeAcctRequest(body)
 		decodable := decOK && exact
+		// text outside US-ASCII is not a request the library decodes (every text field and argument is ASCII)
+		for _, f := range append([]model.B{sent.User, sent.Port, sent.RemAddr}, sent.Args...) {
+			if decodable && !isASCII(f) {
+				decodable = false
+				ev.Class("req:non-ascii-text")
+			}
+		}
 		contradictory := sent.Flags&0x04 != 0 && sent.Flags&0x08 != 0
 		known := c.hasFileAccounter(string(sent.User))
 		switch {
